@@ -280,5 +280,6 @@ pub fn subs() -> Vec<Box<dyn DynSub>> {
         sub(Sub { name: "c20.ns_counters", source: Source::Gen(counter_strategy, 1_600_000, 10_000_000), oracle: counter_oracle, known: no_known, hang_is_violation: false }),
         sub(Sub { name: "c20.day_of_year", source: Source::Gen(doy_strategy, 1_200_000, 8_000_000), oracle: doy_oracle, known: no_known, hang_is_violation: false }),
         sub(Sub { name: "c20.day_of_year_read", source: Source::Gen(doyread_strategy, 1_600_000, 10_000_000), oracle: doyread_oracle, known: no_known, hang_is_violation: false }),
+        crate::props::fuzzsub::fc20(),
     ]
 }
